@@ -2235,7 +2235,7 @@ theorem runLoop_any (g : Graph) (d : Nat → Nat) (hr : Ranked g d) (hsym : Edge
 
 
 theorem lw_of_eq (w : Nat) {s s' : State} (hn : s'.nodes = s.nodes) (hr : s'.regs = s.regs) (hw : s'.workers = s.workers)
-    (hh : s'.hidden = s.hidden) (hi : s'.incompatible = s.incompatible) : LW w DT s s' :=
+    (hh : s'.hidden = s.hidden) (hi : s'.incompatible = s.incompatible) : LW w D s s' :=
   ⟨⟨by rw [hn], by rw [hr], by rw [hw], fun v _ => by unfold State.wd; rw [hw], fun x hx => by rw [← hh]; exact hx,
     fun x hx => by rw [hi]; exact hx, fun u k h => Or.inl (by rw [dropped_of_regs s s' hr] at h; exact h)⟩,
    by unfold State.wd; rw [hw]⟩
@@ -2291,7 +2291,7 @@ theorem continueAfter_any (g : Graph) (d : Nat → Nat) (hr : Ranked g d) (hsym 
     | exit => exact viaLoop
 
 theorem reportOutcome_lw (g : Graph) (s : State) (w n : Nat) (phase : Phase) (uid : String) (wait : Nat) (out : Outcome) :
-    LW w DT s (reportOutcome g s w n phase uid wait out).1 := by
+    LW w D s (reportOutcome g s w n phase uid wait out).1 := by
   unfold reportOutcome
   dsimp only
   split
@@ -2303,7 +2303,7 @@ theorem reportOutcome_lw (g : Graph) (s : State) (w n : Nat) (phase : Phase) (ui
   · exact LW.refl w s
 
 theorem recordResult_loc (s : State) (w n : Nat) (phase : Phase) (name uid : String) (tag : Nat) (st0 : String) (dur : Nat) :
-    Loc w DT s (recordResult s w n phase name uid tag st0 dur).1 ∧
+    Loc w D s (recordResult s w n phase name uid tag st0 dur).1 ∧
     ((recordResult s w n phase name uid tag st0 dur).1.wd w).path = (s.wd w).path ∧
     ((recordResult s w n phase name uid tag st0 dur).1.wd w).pc = (s.wd w).pc := by
   obtain ⟨b1, _, b3, _⟩ := recordResult_frame s w n phase name uid tag st0 dur
@@ -2311,7 +2311,7 @@ theorem recordResult_loc (s : State) (w n : Nat) (phase : Phase) (name uid : Str
   unfold recordResult
   dsimp only
   have hX : ∀ (c : Bool) (jr : List (String × String × String × Nat)),
-      LW w DT s (if c = true then { s with jobResults := jr } else s) := by
+      LW w D s (if c = true then { s with jobResults := jr } else s) := by
     intro c jr; cases c
     · exact LW.refl w s
     · exact lw_of_eq w rfl rfl rfl rfl rfl
@@ -2328,7 +2328,7 @@ theorem resumeTest_any (g : Graph) (d : Nat → Nat) (hr : Ranked g d) (hsym : E
     Walk g d ((resumeTest g s w n phase dir uid tag wait out fuel).1.wd w).path ∧
     DirOK g ((resumeTest g s w n phase dir uid tag wait out fuel).1.wd w) := by
   rw [resumeTest_eq]
-  have aA := reportOutcome_lw g s w n phase uid wait out
+  have aA := reportOutcome_lw (D := DT) g s w n phase uid wait out
   generalize (reportOutcome g s w n phase uid wait out).1 = sa at aA
   have hwA : w < sa.workers.length := by rw [aA.workersLen]; exact hw
   have waitCase : ∀ k, Loc w DT s (sa.setWd w (fun d => { d with pc := .test n phase dir uid tag k })) ∧
@@ -2340,7 +2340,7 @@ theorem resumeTest_any (g : Graph) (d : Nat → Nat) (hr : Ranked g d) (hsym : E
     exact dirOK_test g _ n phase dir uid tag k rfl n hlast hdir hnf
   split
   · next st0 dur _ =>
-    obtain ⟨b1, b2, b3⟩ := recordResult_loc sa w n phase (if (phase == Phase.pre) = true then (s.wd w).preName else (g.node n).name) uid tag st0 dur
+    obtain ⟨b1, b2, b3⟩ := recordResult_loc (D := DT) sa w n phase (if (phase == Phase.pre) = true then (s.wd w).preName else (g.node n).name) uid tag st0 dur
     rw [aA.own] at b2 b3
     obtain ⟨k1, k2, k3⟩ := continueAfter_any g d hr hsym w n phase dir fuel hf _ (recordResult sa w n phase
         (if (phase == Phase.pre) = true then (s.wd w).preName else (g.node n).name) uid tag st0 dur).2
@@ -2482,13 +2482,13 @@ theorem resumeTest_fuel (g : Graph) (d : Nat → Nat) (hr : Ranked g d) (hsym : 
     (hn : s.nodes.length = g.nodes.length) (hc : ClsOK g s) (he : Explored g s) (fuel : Nat) (hf : bound g ≤ fuel) :
     resumeTest g s w n phase dir uid tag wait out fuel = resumeTest g s w n phase dir uid tag wait out (bound g) := by
   rw [resumeTest_eq, resumeTest_eq]
-  have aA := reportOutcome_lw g s w n phase uid wait out
+  have aA := reportOutcome_lw (D := DT) g s w n phase uid wait out
   generalize (reportOutcome g s w n phase uid wait out).1 = sa at aA
   have hwA : w < sa.workers.length := by rw [aA.workersLen]; exact hw
   have gA : Good g d w sa := good_of_loc aA.toLoc hn hc he (by rw [aA.own]; exact hwalk)
   split
   · next st0 dur _ =>
-    obtain ⟨b1, b2, b3⟩ := recordResult_loc sa w n phase (if (phase == Phase.pre) = true then (s.wd w).preName else (g.node n).name) uid tag st0 dur
+    obtain ⟨b1, b2, b3⟩ := recordResult_loc (D := DT) sa w n phase (if (phase == Phase.pre) = true then (s.wd w).preName else (g.node n).name) uid tag st0 dur
     rw [aA.own] at b2 b3
     have gB := good_of_loc (g := g) (d := d) b1 gA.nodesLen gA.cls gA.explored (by rw [b2]; exact hwalk)
     exact continueAfter_fuel g d hr hsym w n phase dir _ _ _ (by rw [b1.workersLen]; exact hwA)
